@@ -154,7 +154,7 @@ func c09R1(p *engine.Prog, r *engine.Report) {
 	// every success return behind EnsureIntegrity()==nil
 	okRet := len(gEI) > 0
 	for _, ret := range successReturns(sw) {
-		if !engine.OnlyThroughPass(sw, ret.Block(), gEI) {
+		if !engine.OnlyThroughPassRet(sw, ret, gEI) {
 			okRet = false
 		}
 	}
@@ -290,7 +290,7 @@ func c09R2(p *engine.Prog, r *engine.Report) {
 			}
 		}
 		for _, ret := range successReturns(asp) {
-			if !engine.OnlyThroughPass(asp, ret.Block(), g) {
+			if !engine.OnlyThroughPassRet(asp, ret, g) {
 				ok = false
 			}
 		}
@@ -453,7 +453,7 @@ func c09R3(p *engine.Prog, r *engine.Report) {
 			continue
 		}
 		// refusals of insertBlock happen after the commit: nothing to roll back
-		if engine.OnlyThroughPass(ab, ret.Block(), gc) {
+		if engine.OnlyThroughPassRet(ab, ret, gc) {
 			continue
 		}
 		nRef++
@@ -647,7 +647,7 @@ func c09R4(p *engine.Prog, r *engine.Report) {
 	gi := neqGuard(ei, "blockchain/types.Header.IdentityRoot", "core/state.IdentityStateDB.Root")
 	ok := len(gs) > 0 && len(gi) > 0
 	for _, ret := range successReturns(ei) {
-		if !engine.OnlyThroughPass(ei, ret.Block(), gs) || !engine.OnlyThroughPass(ei, ret.Block(), gi) {
+		if !engine.OnlyThroughPassRet(ei, ret, gs) || !engine.OnlyThroughPassRet(ei, ret, gi) {
 			ok = false
 		}
 	}
@@ -779,7 +779,7 @@ func c09R4(p *engine.Prog, r *engine.Report) {
 			okA := len(g) > 0
 			all := append(append([]engine.Guard{}, g...), resetGuards...)
 			for _, ret := range successReturns(ei) {
-				if !engine.OnlyThroughPass(ei, ret.Block(), all) {
+				if !engine.OnlyThroughPassRet(ei, ret, all) {
 					okA = false
 				}
 			}
@@ -829,7 +829,7 @@ func c09R4(p *engine.Prog, r *engine.Report) {
 			g := nilErrGuards(art, c)
 			ok = len(g) > 0
 			for _, ret := range successReturns(art) {
-				if !engine.OnlyThroughPass(art, ret.Block(), g) {
+				if !engine.OnlyThroughPassRet(art, ret, g) {
 					ok = false
 				}
 			}
